@@ -785,6 +785,9 @@ func (w *world) commitFrom(adb *account.AccountDB, touched map[common.Address]bo
 	sort.Slice(tl, func(i, j int) bool { return bytes.Compare(tl[i][:], tl[j][:]) < 0 })
 	for _, a := range tl {
 		a := a
+		if p.skipRead {
+			break
+		}
 		if res := hx.Guard(func() string { exp[a] = w.observe(adb, a); return "" }); res != "" {
 			r.stats["accessor_panics"]++
 			r.step("!! observe " + res)
@@ -801,6 +804,16 @@ func (w *world) commitFrom(adb *account.AccountDB, touched map[common.Address]bo
 	}
 	r.stats["blocks"]++
 	tdb := w.sdb.TrieDB()
+	// second reading of "readable before the commit": what the committing
+	// AccountDB itself answers after state.Commit and before the node commit
+	warm := map[common.Address]*acctExp{}
+	for _, a := range tl {
+		a := a
+		if res := hx.Guard(func() string { warm[a] = w.observe(adb, a); return "" }); res != "" {
+			r.stats["accessor_panics"]++
+			delete(warm, a)
+		}
+	}
 	w.emitCache(root)
 	r.out.Emit("view "+hs(root), viewOf(root, w.nodeOf, 200000))
 	preDigest, why := contentDigest(w.sdb, root)
@@ -894,8 +907,13 @@ func (w *world) commitFrom(adb *account.AccountDB, touched map[common.Address]bo
 		if w.big {
 			sample = 60
 		}
-		if d := w.apiCheck(disk, root, exp, sample); d != "" {
-			r.violate("read-differs-after-reopen", fmt.Sprintf("root %x: %s (value read before the commit vs cold reopen)", root[:4], d))
+		if !p.skipRead {
+			if d := w.apiCheck(disk, root, exp, sample); d != "" {
+				r.violate("read-differs-after-reopen", fmt.Sprintf("root %x: %s (value read before the commit vs cold reopen)", root[:4], d))
+			}
+		}
+		if d := w.apiCheck(disk, root, warm, 0); d != "" {
+			r.violate("warm-read-differs-after-reopen", fmt.Sprintf("root %x: %s (committing AccountDB after state.Commit vs cold reopen)", root[:4], d))
 		}
 		r.out.Emit("dview "+hs(root), viewOf(root, func(h common.Hash) []byte {
 			if b, ok := disk[string(h[:])]; ok {
@@ -911,6 +929,19 @@ func (w *world) commitFrom(adb *account.AccountDB, touched map[common.Address]bo
 		}
 		if !known {
 			w.durable = append(w.durable, &rootRec{root: root, exp: exp, digest: st.digest})
+		}
+		if p.skipRead {
+			// informational only (state-transition semantics belong to C04/C06, not to
+			// durability): did an unobserved touched account change its readable content?
+			if d := w.apiCheck(disk, root, exp, 0); d != "" {
+				r.stats["unobserved_touch_changed_content"]++
+				if os.Getenv("VERIF_DEBUG") != "" {
+					fmt.Fprintln(os.Stderr, "DEBUG unobserved touch changed content:", d)
+				}
+			}
+			for a, e := range warm {
+				exp[a] = e
+			}
 		}
 		w.head, w.headExp = root, exp
 		// an older root sampled through the accessors as well
@@ -1084,6 +1115,9 @@ func main() {
 	corpusDir := os.Getenv("VERIF_CORPUS")
 	if mode == "corr" && only < 0 {
 		r.runCorpus(corpusDir)
+	}
+	if a["corpusonly"] != "" {
+		plan = nil
 	}
 	base := hx.NewRng(seed ^ uint64(len(mode))*0x9e3779b97f4a7c15)
 	for i, s := range plan {
